@@ -376,6 +376,23 @@ func Guard(f func()) (p *PanicInfo) {
 	return nil
 }
 
+// Parallel is the run-aware form of the package-level Parallel: a panic whose
+// stack passes through notation-core-go is the LIBRARY panicking inside a call
+// the check did not guard individually; it is counted ("panicked", the business
+// of C09) and the run goes on. Any other panic is a harness bug and is re-raised.
+func (r *Run) Parallel(n int, f func(i int)) {
+	Parallel(n, func(i int) {
+		if p := Guard(func() { f(i) }); p != nil {
+			if strings.Contains(p.Stack, "github.com/notaryproject/notation-core-go") {
+				r.Count("panicked", 1)
+				r.Count("panicked-in-unguarded-call", 1)
+				return
+			}
+			panic(fmt.Sprintf("%s\n%s", p.Value, p.Stack))
+		}
+	})
+}
+
 // Parallel runs f(i) for i in [0,n) on GOMAXPROCS workers. A panic inside f is
 // a harness bug unless f guards the library call itself; it is re-raised with
 // the index so the culprit case is known.
